@@ -539,7 +539,7 @@ func (s *srvConn) settle() string {
 
 func (s *srvConn) gauges() string {
 	rwin, _ := http2.VerifRecvWindow()
-	return fmt.Sprintf("strms=%d open=%d ring=%d held=%d rwin=%d", http2.VerifStrms.Load(), http2.VerifOpen.Load(), http2.VerifRing.Load(), http2.VerifHeld.Load(), rwin)
+	return fmt.Sprintf("strms=%d open=%d ring=%d held=%d rwin=%d body=%d", http2.VerifStrms.Load(), http2.VerifOpen.Load(), http2.VerifRing.Load(), http2.VerifHeld.Load(), rwin, http2.VerifBody.Load())
 }
 
 func argInt(f []string, key string, def int) int {
